@@ -609,3 +609,76 @@ def check_C14(rep, scr, tier, seed):
     return rep.finish('every string over {delimiter1, delimiter2, letter, letter} of length 0..N x dmax = strlen+1 / strlen+4 / unterminated (flush against a guard page) x delimiter-set schedules (constant, alternating, empty, 16 and 17 characters) x call sequences of strlen+4 calls, narrow and wide; non-trivial = distinct (function, result sequence, dmax class)',
                       'make -C /verif/coq Properties_C14.vo + harness/check.py C14')
 REGISTRY['C14'] = check_C14
+
+# ------------------------------------------------------------------ C19: timingsafe comparisons
+import ctast_tr
+def check_C19(rep, scr, tier, seed):
+    import itertools, random
+    rng = random.Random(seed)
+    impl = vlib.build_impl(scr, 'O1'); consts = vlib.consts(scr, impl); vlib.write_gen_consts(consts)
+    progs = []; errors = []
+    for path, fn in (('src/extmem/timingsafe_bcmp.c', '_timingsafe_bcmp_chk'), ('src/extmem/timingsafe_memcmp.c', '_timingsafe_memcmp_chk')):
+        try: progs.append(ctast_tr.translate(vlib.REPO, impl + '/inc', path, fn))
+        except ctast_tr.Unsupported as e:
+            errors.append('%s: %s' % (fn, e))
+            progs.append(dict(name=fn, stmt='CWhile (CLoad (CConst 0)) CSkip', ret='CConst 0', nvars=1, names=['untranslatable'], params=[]))
+    ctast_tr.write_gen(progs, vlib.COQ, errors)
+    rep.extra['translated'] = [{'function': p['name'], 'variables': p['names']} for p in progs]; rep.extra['translator_errors'] = errors
+    md = vlib.build_model()
+    pr = proofs(rep, scr, 'C19')
+    cases = []; n = 0
+    def add(func, a, b, ln, al=0):
+        nonlocal n; n += 1
+        blocks = [('L' if al else 'R', b'\xa5' * al + bytes(a)), ('L' if al else 'R', b'\xa5' * al + bytes(b))]
+        if not len(blocks[0][1]): blocks = [('R', b'\0'), ('R', b'\0')]
+        cases.append(vlib.Case('s%d' % n, func, blocks, [(0, al), (1, al), ln, UNK, UNK], {'cls': 'ts', 'a': list(a), 'b': list(b), 'n': ln, 'func': func}))
+    for func in ('timingsafe_bcmp', 'timingsafe_memcmp'):
+        for ln in range(0, 5 if tier == 'quick' else 7):
+            for a in itertools.product((0, 1, 0xff), repeat=ln):
+                for b in itertools.product((0, 1, 0xff), repeat=ln):
+                    if ln >= 4 and rng.random() < 0.7 and tier == 'quick': continue
+                    add(func, a, b, ln)
+        # longer regions, aligned and unaligned, a single differing byte at every position, and equal regions
+        for ln in (8, 9, 15, 16, 17, 24, 33):
+            for al in (0, 1, 3, 8):
+                base = [rng.randrange(256) for _ in range(ln)]
+                add(func, base, base, ln, al)
+                for pos in range(ln):
+                    for delta in (1, 0x80):
+                        other = list(base); other[pos] = (other[pos] + delta) % 256
+                        add(func, base, other, ln, al)
+        add(func, [1, 2], [1, 2], consts['rmax_mem'] + 1)     # n above RSIZE_MAX_MEM: reported, nothing read
+    oi, om = run_cases(rep, scr, impl, md, consts, cases, 'ts')
+    sgn = lambda x: (x > 0) - (x < 0)
+    for x in cases:
+        a = oi.get(x.id); b = om.get(x.id); m = x.meta
+        rep.evals += 1; rep.count('%s/n=%d' % (x.func, min(m['n'], 40)))
+        if a is None or b is None: rep.violation('no outcome', {'key': 'nooutcome', 'no_failing_input': True, 'case': x.to_json()}); continue
+        rep.nontrivial.add((x.func, m['n'], a.ret))
+        if len(rep.samples) < 6 and rep.evals % 1777 == 3: rep.samples.append({'case': x.line()[:160], 'impl': a.raw[:120], 'model': b.raw[:120]})
+        fails = []
+        if a.fault != '-': fails.append(('fault', 'faulted at %s' % a.fault))
+        elif m['n'] <= consts['rmax_mem']:
+            r = int(a.ret); A, B = bytes(m['a']), bytes(m['b'])
+            if x.func == 'timingsafe_bcmp':
+                if (r == 0) != (A == B): fails.append(('wrong-result', 'timingsafe_bcmp returned %d for %s regions' % (r, 'equal' if A == B else 'unequal')))
+            else:
+                want = sgn((A > B) - (A < B))
+                if sgn(r) != want: fails.append(('wrong-result', 'timingsafe_memcmp returned %d, memcmp sign is %d' % (r, want)))
+            if any(bl != x.blocks[i][1] for i, bl in enumerate(a.blocks)): fails.append(('operand-modified', 'an operand was modified'))
+        for kind, text in fails:
+            rep.violation('%s: %s' % (x.func, text), {'key': (x.func, kind), 'property': 'C19', 'function': x.func, 'failure': kind, 'case': x.to_json(), 'case_line': x.line(), 'impl_outcome': a.raw, 'model_outcome': b.raw})
+        if not fails and (a.ret, a.handlers, a.fault != '-') != (b.ret, b.handlers, b.fault != '-'): rep.mismatches.append((x, a, b, 'O1'))
+    if errors and not rep.violations:
+        rep.violation('the constant-time obligation can no longer be stated: the translator does not understand the current source (%s)' % '; '.join(errors),
+                      {'key': 'translator', 'property': 'C19', 'no_failing_input': True, 'broken': 'translator ctast / theorems C19_*_source_is_constant_time', 'errors': errors})
+    elif not pr['ok'] and not rep.violations:
+        # the type check failed: data-dependent control flow or addressing in the source; exhibit it with the leakage semantics
+        rep.violation('the regenerated loop is not well-typed for secrecy: a branch condition or an address depends on the contents of the regions (%s)' % ', '.join(pr['failed'][:3]),
+                      {'key': 'ct-typecheck', 'property': 'C19', 'no_failing_input': True, 'broken': 'theorems C19_bcmp_source_is_constant_time / C19_memcmp_source_is_constant_time (Gen/TsProgs.v)', 'log': pr['log'][-1500:]})
+    report_mismatches(rep, 'T1 (results)')
+    rep.trusted = TRUSTED_COMMON + ['translator ctast (harness/ctast_tr.py): clang 14 JSON AST -> ConstTime.cstmt; the size checks in front of the loop (public parameters) are skipped',
+                                    'machine level (what the compiler emits) is not covered by the theorem: partial, see DESIGN section 6']
+    return rep.finish('all pairs of regions over {0,1,255} of length 0..4 (quick: sampled at 4) + aligned/unaligned regions of 8..33 bytes with one differing byte at every position; non-trivial = distinct (function, n, result)',
+                      'make -C /verif/coq Properties_C19.vo + harness/check.py C19')
+REGISTRY['C19'] = check_C19
